@@ -41,3 +41,8 @@ pub mod machine_facts {
 // `Range<Idx>: Clone` clones both ends (std's derived impl).
 pub assume_specification<Idx: Clone>[<Range<Idx> as Clone>::clone](r: &Range<Idx>) -> (res: Range<Idx>)
     ensures cloned(r.start, res.start), cloned(r.end, res.end);
+// Rendering the opaque source delegates to the boxed std error's Display (trusted, std).
+impl core::fmt::Display for OpaqueErrorSource {
+    #[verifier::external_body]
+    fn fmt(&self, f: &mut core::fmt::Formatter<'_>) -> core::fmt::Result { self.0.fmt(f) }
+}
